@@ -300,3 +300,61 @@ def flow_variants(S):
   if (Sf == n_.round(Sf)).all():
     out += [('integer-typed C layout', Sf.astype(int)), ('integer-typed F layout', n_.asfortranarray(Sf.astype(int)))]
   return out
+
+
+# ---------------------------------------------------------------- leaves without a Lean model (oracle-only trees)
+def window_leaf(rng, id, n):
+  """a WindowDevice description (no model: trees containing one are oracle-only). Strictly positive lower bounds:
+  the total flow of its row is never zero (that is the listed corner `window_zero_sum_flow` of another property)."""
+  lb = [dy(rng, Fraction(1, 4), 2) for _ in range(n)]
+  hb = [a + dy(rng, Fraction(1, 4), 3) for a in lb]
+  return {'k': 'leaf', 'id': id, 'dev': {'cls': 'WindowDevice', 'n': n, 'lb': [fs(x) for x in lb], 'hb': [fs(x) for x in hb], 'cbs': [],
+                                           'prm': {'w': fs(dy(rng, 0, max(1, n), 1)), 'c': fs(dy(rng, Fraction(1, 4), 3))}, '_py': {'bform': 'table', 'cform': None}}}
+
+
+def raw_ucons_leaf(rng, id, n):
+  """an ADevice whose user constraint is written for the device's flow VECTOR and does not flatten its argument:
+  `x[0]*w + c >= 0` (first slot) or `x[s:e].sum()*w + c >= 0` (a slot range)."""
+  lb = [Fraction(0)]*n; hb = [dy(rng, 1, 3) for _ in range(n)]
+  s = rng.randrange(0, n); e = rng.randint(s + 1, n)
+  u = {'type': rng.choice(['ineq', 'ineq', 'eq']), 'raw': rng.choice(['first', 'range']), 's': s, 'e': e,
+       'w': fs(dy(rng, Fraction(1, 2), 2)), 'c': fs(-dy(rng, 0, 1)), 'n': n, 'jac': rng.random() < 0.7}
+  return {'k': 'leaf', 'id': id, 'dev': {'cls': 'ADevice', 'n': n, 'lb': [fs(x) for x in lb], 'hb': [fs(x) for x in hb], 'cbs': [],
+                                           'prm': {'f': {'k': 'null'}}, 'raw_ucons': [u], '_py': {'bform': 'table', 'cform': None}}}
+
+
+def build_raw_ucons(us):
+  n_ = np()
+  out = []
+  for u in us:
+    w = C.pf(u['w']); c = C.pf(u['c']); s, e, n = u['s'], u['e'], u['n']
+    if u['raw'] == 'first':
+      con = {'type': u['type'], 'fun': (lambda x, w=w, c=c: x[0]*w + c)}
+      jv = n_.array([w] + [0.0]*(n - 1))
+    else:
+      con = {'type': u['type'], 'fun': (lambda x, w=w, c=c, s=s, e=e: x[s:e].sum()*w + c)}
+      jv = n_.array([w if s <= i < e else 0.0 for i in range(n)])
+    if u.get('jac', True):
+      con['jac'] = (lambda x, jv=jv: jv.copy())
+    out.append(con)
+  return out
+
+
+def build_tree_x(t):
+  """build.build_tree, plus the oracle-only leaves above."""
+  n_ = np()
+  dk = C.repo()
+  if t['k'] == 'leaf' and t['dev']['cls'] == 'WindowDevice':
+    d = t['dev']
+    return dk.WindowDevice(t['id'], d['n'], build.py_bounds(d), C.pf(d['prm']['w']), c=C.pf(d['prm']['c']))
+  if t['k'] == 'leaf' and t['dev'].get('raw_ucons'):
+    d = dict(t['dev']); d['_constraints'] = build_raw_ucons(d['raw_ucons'])
+    return build.build_leaf(d, t['id'])
+  if t['k'] != 'node':
+    return build.build_tree(t)
+  kids = [build_tree_x(c) for c in t['ch']]
+  sb = n_.array([[C.pf(a), C.pf(b)] for a, b in t['sb']]) if t.get('sb') is not None else None
+  if t.get('sub'):
+    return dk.SubBalancedDeviceSet(t['id'], kids, sb, labels=list(t.get('labels', [])), constraint_type=t.get('ctype', 'eq'),
+                                   sign=C.pf(t.get('sign', '1')), apply_to_remaining=bool(t.get('rem', False)))
+  return dk.DeviceSet(t['id'], kids, sb)
